@@ -2,6 +2,7 @@ package core
 
 import (
 	stdErrors "errors"
+	"fmt"
 
 	schema "github.com/jsightapi/jsight-schema-core"
 	"github.com/jsightapi/jsight-schema-core/notations/jschema"
@@ -13,16 +14,24 @@ import (
 )
 
 func (core *JApiCore) collectUserTypes() *jerr.JApiError {
-	core.collectRawUserTypes()
+	if je := core.collectRawUserTypes(); je != nil {
+		return je
+	}
 	return core.compileUserTypes()
 }
 
-func (core *JApiCore) collectRawUserTypes() {
+func (core *JApiCore) collectRawUserTypes() *jerr.JApiError {
 	for _, d := range core.directivesWithPastes {
 		if d.Type() == directive.Type {
+			// A second TYPE of the same name would replace the first one here, and the catalog would later pair the
+			// first directive with the schema of the second (of possibly another notation).
+			if name := d.NamedParameter("Name"); name != "" && core.rawUserTypes.Has(name) {
+				return d.KeywordError(fmt.Sprintf(jerr.DuplicateNames, name))
+			}
 			core.AddRawUserType(d)
 		}
 	}
+	return nil
 }
 
 func (core *JApiCore) compileUserTypes() *jerr.JApiError {
